@@ -19,8 +19,8 @@ CONTRACTS = {
     "variable.__lt__": {"props": ["C10"], "why": "ordering by id (sorted children / flatten)"},
     "variable.__init__": {"props": ["C03", "C04", "C07", "C16"], "group": "E0",
                           "why": "int -> (v,v); Bounds kept; tuple -> Bounds(*t); default (0,1)"},
-    "variable.assume": {"props": ["C01", "C03", "C07"], "why": "H3: leaf takes fixed[id] if named, else itself"},
-    "variable.evaluate": {"props": ["C01", "C03", "C06"], "why": "K7: int -> (v,v), tuple -> Bounds(*v), Bounds -> itself, absent -> own bounds"},
+    "variable.assume": {"props": ["C01", "C03", "C04", "C05", "C07"], "why": "H3: leaf takes fixed[id] if named, else itself"},
+    "variable.evaluate": {"props": ["C01", "C03", "C04", "C05", "C06"], "why": "K7: int -> (v,v), tuple -> Bounds(*v), Bounds -> itself, absent -> own bounds"},
     "variable.evaluate_propositions": {"props": ["C03"], "why": "K6 for leaves"},
     "variable.flatten": {"props": ["C01", "C03", "C10"], "why": "a leaf flattens to itself"},
     "variable.support_vector_variable": {"props": ["C01", "C20"], "why": "support column: id 0, bounds (1,1)"},
